@@ -360,7 +360,7 @@ def iter_clone(fns, src, nmax, name=None):
                        'clone claims a slot that is not initialised, or holds an initialised slot it does not claim', 'post')
         else:
             for C, stt in out_arrays(s2):
-                ex.require(s2, z3.Implies(ULT(J, N), stt != LIVE), 'clones already written are leaked when a later T::clone panics', 'end(unwind)')
+                ex.require(s2, z3.Implies(z3.And(ULT(J, N), nd_T(ex)), stt != LIVE), 'clones already written are leaked when a later T::clone panics', 'end(unwind)')
         ex.require(s2, z3.Implies(z3.And(ULE(I, J), ULT(J, B)), s2.status[A] == LIVE), 'original iterator disturbed by clone', 'end')
         cur = s2.get(it, ())
         ex.require(s2, z3.And(cur[1] == I, cur[2] == B), 'original iterator position changed by clone', 'end')
@@ -521,12 +521,12 @@ def op_try_from_iter(fns, src, nmax, name=None, boxed=False):
                     ex.ev_extern(s2, {})
                 else:
                     for arr, stt in out_arrays(s2):
-                        ex.require(s2, z3.Implies(inA, z3.Or(stt == UNINIT, stt == DROPPED)), 'items already stored are leaked on LengthError', 'end')
+                        ex.require(s2, z3.Implies(z3.And(inA, nd_T(ex)), z3.Or(stt == UNINIT, stt == DROPPED)), 'items already stored are leaked on LengthError', 'end')
                     truthful = z3.And(ULE(LO, C), ULE(C, HI)) if hi_variant == 'Some' else ULE(LO, C)
                     ex.require(s2, z3.Not(z3.And(C == N, truthful)), 'LengthError although the source yields exactly N items and its size hint is truthful', 'end')
             else:
                 for arr, stt in out_arrays(s2):
-                    ex.require(s2, z3.Implies(inA, z3.Or(stt == UNINIT, stt == DROPPED)), 'items already stored are leaked when the source panics', 'end(unwind)')
+                    ex.require(s2, z3.Implies(z3.And(inA, nd_T(ex)), z3.Or(stt == UNINIT, stt == DROPPED)), 'items already stored are leaked when the source panics', 'end(unwind)')
             # items pulled from the source and not stored in a returned array must have been dropped
             okret = kind == 'ret' and val.variant == 'Ok'
             ex.require(s2, z3.Or(ex.stat(s2, ex.V) == UNINIT, ex.stat(s2, ex.V) == DROPPED, ex.stat(s2, ex.V) == STORED),
@@ -887,6 +887,7 @@ def validate_iter(fns, src, nmax):
                     for k in (range(0, n + 2) if which.startswith('nth') else [0]):
                         N, I, B, a, J = syms('N', 'index', 'index_back', 'n', 'J')
                         ex = Exec(fns, src, J, N, nmax=nmax)
+                        ex.needs_drop['T'] = z3.BoolVal(True)      # the native element type of the comparison has drop glue
                         A = Arr('A', N)
                         st = new_state()
                         st.pc += [N == n, I == f, B == n - b, a == k]
@@ -977,7 +978,7 @@ def iter_fold(fns, src, nmax, which='fold', name=None):
             ex.require(s2, z3.Implies(inr, s2.status[A] == EXTERN), 'fold did not hand every remaining element to the closure', 'end')
             ex.ev_extern(s2, val)
         else:
-            ex.require(s2, z3.Implies(inr, z3.Or(s2.status[A] == EXTERN, s2.status[A] == DROPPED)), 'remaining element leaked when the closure panics', 'end(unwind)')
+            ex.require(s2, z3.Implies(z3.And(inr, nd_T(ex)), z3.Or(s2.status[A] == EXTERN, s2.status[A] == DROPPED)), 'remaining element leaked when the closure panics', 'end(unwind)')
         ex.require(s2, z3.Implies(z3.Not(inr), z3.Or(s2.status[A] == EXTERN, ULE(N, J))), 'an element outside the remaining range was touched', 'end')
         ex.require(s2, ex.stat(s2, ex.V) != HELD, 'an accumulator value was lost (neither passed on, dropped nor returned)', 'end')
     return finish(res, ex, t0, paths, unw)
@@ -1057,7 +1058,7 @@ def serde_visit_seq(fns, src, nmax, name=None, mir_text=None):
         else:
             seen.add('err' if kind == 'ret' else 'unwind')
             for arr, stt in out_arrays(s2):
-                ex.require(s2, z3.Implies(inA, z3.Or(stt == UNINIT, stt == DROPPED)), 'elements already read are leaked (or a partially filled array escapes) on the error / panic path', 'end(%s)' % kind)
+                ex.require(s2, z3.Implies(z3.And(inA, nd_T(ex)), z3.Or(stt == UNINIT, stt == DROPPED)), 'elements already read are leaked (or a partially filled array escapes) on the error / panic path', 'end(%s)' % kind)
             if kind == 'ret':
                 for q in s2.heap.values():
                     if isinstance(q, dict) and q.get('kind') == 'seq' and not q.get('failed'):
